@@ -45,6 +45,9 @@ func Allowed(r *lexm.Rendering, i int, t lexm.Trivia) (text string, ok bool) {
 		return text, true
 	}
 	l, rt := neighbours(r, i)
+	if text != "" && l != "" && l[len(l)-1] == '/' && text[0] == '/' {
+		return "", false // `/` directly followed by a comment would itself start a one-line comment
+	}
 	if text == "" && (i+1 >= len(r.Pieces) || !lexm.Separable(l, rt)) {
 		return "", false
 	}
